@@ -25,6 +25,8 @@ pub struct Train {
 pub struct St {
     pub idx: Vec<u8>,
     pub rx: RxS,
+    /// label carried by the nearest preceding start/complete packet (what a re-use label refers to)
+    pub near: Option<Lbl>,
 }
 
 #[derive(Clone, Debug, PartialEq, Eq)]
@@ -44,6 +46,9 @@ pub struct Stray {
     pub only_when_idle: Option<usize>,
     /// first fragment of a foreign PDU claiming the slot of train i (may evict train i only)
     pub evicts: Option<usize>,
+    /// complete packet with a re-use label: if delivered, its label must be the one of the nearest
+    /// preceding start/complete packet
+    pub reuse_complete: bool,
 }
 
 pub struct Sys {
@@ -77,7 +82,7 @@ impl Sys {
         let n = slots as u8;
         let k = shapes.len() as u8; // maps to the first slot no train uses (when slots > number of trains)
         let mut strays = vec![];
-        let mk = |name: &str, bytes: Vec<u8>| Stray { name: name.to_string(), bytes, delivers: None, only_when_idle: None, evicts: None };
+        let mk = |name: &str, bytes: Vec<u8>| Stray { name: name.to_string(), bytes, delivers: None, only_when_idle: None, evicts: None, reuse_complete: false };
         for (ti, t) in trains.iter().enumerate() {
             // aliases above (id+n, id+2n) and below (id-n, id mod n)
             let mut aliases: Vec<u8> = vec![t.id.wrapping_add(n), t.id.wrapping_add(n.wrapping_mul(2))];
@@ -108,6 +113,9 @@ impl Sys {
         let mut c = mk("complete-bcast", Desc::complete(Lbl::Bcast, 0x86DD, &[0x73]).print());
         c.delivers = Some((vec![0x73], Lbl::Bcast, 0x86DD));
         strays.push(c);
+        let mut c = mk("complete-reuse", Desc::complete(Lbl::ReUse, 0x0800, &[0x74, 0x75]).print());
+        c.reuse_complete = true;
+        strays.push(c);
         strays.push(mk("padding", vec![0, 0, 0]));
         strays.push(mk("inter-oversize-alias", Desc::inter(trains[0].id.wrapping_add(n), &[0xEA; 40]).print()));
         if with_evictor {
@@ -126,7 +134,7 @@ impl System for Sys {
     type Op = Op;
     fn init(&self) -> Vec<St> {
         let bufs: Vec<usize> = (0..self.trains.len() + 1).map(|_| self.storage).collect();
-        vec![St { idx: vec![0; self.trains.len()], rx: RxS::new(self.slots, self.storage, &bufs) }]
+        vec![St { idx: vec![0; self.trains.len()], rx: RxS::new(self.slots, self.storage, &bufs), near: None }]
     }
     fn ops(&self, s: &St) -> Vec<Op> {
         let mut v = vec![];
@@ -178,6 +186,22 @@ impl System for Sys {
             viols.push((format!("C07|panic|{}", Panicked(p.clone()).coarse()), format!("{:?} panics at {}", op, p)));
             return StepOut { next: None, viols };
         }
+        // ghost: label of the nearest preceding start/complete packet
+        let mut near = s.near;
+        match op {
+            Op::Advance(i) if s.idx[*i] == 0 => near = if self.trains[*i].label.is_addr() { Some(self.trains[*i].label) } else { None },
+            Op::Restart(i) => near = if self.trains[*i].label.is_addr() { Some(self.trains[*i].label) } else { None },
+            Op::Stray(j) => {
+                let st = &self.strays[*j];
+                if let Some((_, l, _)) = &st.delivers {
+                    near = if l.is_addr() { Some(*l) } else { None };
+                }
+                if st.evicts.is_some() {
+                    near = Some(L3B);
+                }
+            }
+            _ => {}
+        }
         // isolation: reassembly data of every other train unchanged
         let evicted: Option<usize> = if let Op::Stray(j) = op { self.strays[*j].evicts } else { None };
         for (j, t) in self.trains.iter().enumerate() {
@@ -222,7 +246,16 @@ impl System for Sys {
             }
             Op::Stray(j) => {
                 let st = &self.strays[*j];
+                if st.reuse_complete {
+                    if let DecapOut::Completed { buf, meta, .. } = &out {
+                        if Some(meta.label) != s.near {
+                            viols.push(("C07|reuse-complete-wrong-label".into(), format!("complete packet with a re-use label delivered with label {} but the nearest preceding start/complete packet carried {:?} (indices {:?})", meta.label.short(), s.near.map(|l| l.short()), s.idx)));
+                        }
+                        rx2.mem.free.push(vec![0u8; buf.len()]);
+                    }
+                }
                 match (&st.delivers, &out) {
+                    _ if st.reuse_complete => {}
                     (Some((pd, l, pt)), DecapOut::Completed { buf, meta, .. }) => {
                         if meta.pdu_len != pd.len() || buf[..pd.len()] != pd[..] || meta.label != *l || meta.pt != *pt {
                             viols.push(("C07|complete-stray-differs".into(), format!("stray complete packet delivered as {}", out.brief())));
@@ -280,7 +313,7 @@ impl System for Sys {
             let n = (f.0.pdu_len as usize).min(f.1.len());
             f.1[n..].iter_mut().for_each(|x| *x = 0);
         }
-        StepOut { next: Some(St { idx, rx: rx2 }), viols }
+        StepOut { next: Some(St { idx, rx: rx2, near }), viols }
     }
     fn op_json(&self, op: &Op) -> Value {
         match op {
@@ -303,7 +336,7 @@ pub fn sys_from_name(name: &str) -> Option<Sys> {
 
 pub fn run(tier: Tier) -> i32 {
     let rep = Report::new("C07", tier);
-    rep.set_rule("for each configuration (trains = (PDU length, fragments) on fragment ids 0..k-1, memory of n slots) breadth-first search to closure over advance(i) / restart(i) / stray(j) with state = (next index per train, real receiver snapshot); strays: intermediate/end of ids aliasing each train's slot (id+n, id+2n), of an id mapping to an empty slot, duplicate end of an idle train, complete packets, padding, oversize aliasing intermediate, (one configuration) a foreign first fragment claiming an aliasing slot; oracle: delivery exactly at the own end fragment with own bytes/metadata, no other train's reassembly data altered by any op, strays leave the memory unchanged; distinct = (op kind, outcome); number of distinct receiver memories per index vector reported");
+    rep.set_rule("for each configuration (trains = (PDU length, fragments) on fragment ids 0..k-1, memory of n slots) breadth-first search to closure over advance(i) / restart(i) / stray(j) with state = (next index per train, real receiver snapshot); strays: intermediate/end of ids aliasing each train's slot (id+n, id+2n), of an id mapping to an empty slot, duplicate end of an idle train, complete packets (3-byte, broadcast and re-use label, the latter checked against the nearest preceding start/complete label), padding, oversize aliasing intermediate, (one configuration) a foreign first fragment claiming an aliasing slot; oracle: delivery exactly at the own end fragment with own bytes/metadata, no other train's reassembly data altered by any op, strays leave the memory unchanged; distinct = (op kind, outcome); number of distinct receiver memories per index vector reported");
     rep.assume("trains are built by the reference printer (independent of the crate's encapsulator); PDUs of 4..12 bytes, 2..5 fragments");
     let mut configs: Vec<(usize, Vec<(usize, usize)>, bool)> = vec![
         (2, vec![(4, 2), (6, 3)], false),
